@@ -87,6 +87,13 @@ fn serve() {
                 continue;
             }
         };
+        REQ_STARTED.store(
+            std::time::SystemTime::now()
+                .duration_since(std::time::UNIX_EPOCH)
+                .map(|d| d.as_secs())
+                .unwrap_or(1),
+            std::sync::atomic::Ordering::Relaxed,
+        );
         let resp = match catch_unwind(AssertUnwindSafe(|| dispatch(&req))) {
             Ok(v) => v,
             Err(_) => {
@@ -94,12 +101,42 @@ fn serve() {
                 json!({ "panic": p })
             }
         };
+        REQ_STARTED.store(0, std::sync::atomic::Ordering::Relaxed);
         writeln!(out, "{}", resp).unwrap();
         out.flush().unwrap();
     }
 }
 
+/// Watchdog: leave when the driver that started us is gone (we were re-parented) or when a single request
+/// runs longer than XHARNESS_MAX_REQ_SECS (default 900 s) — a hung request must not outlive its check.
+fn watchdog() {
+    let parent = std::os::unix::process::parent_id();
+    let max: u64 = std::env::var("XHARNESS_MAX_REQ_SECS")
+        .ok()
+        .and_then(|s| s.parse().ok())
+        .unwrap_or(900);
+    std::thread::spawn(move || loop {
+        std::thread::sleep(std::time::Duration::from_secs(2));
+        if std::os::unix::process::parent_id() != parent {
+            std::process::exit(3);
+        }
+        let started = REQ_STARTED.load(std::sync::atomic::Ordering::Relaxed);
+        if started != 0 {
+            let now = std::time::SystemTime::now()
+                .duration_since(std::time::UNIX_EPOCH)
+                .map(|d| d.as_secs())
+                .unwrap_or(0);
+            if now.saturating_sub(started) > max {
+                std::process::exit(4);
+            }
+        }
+    });
+}
+
+static REQ_STARTED: std::sync::atomic::AtomicU64 = std::sync::atomic::AtomicU64::new(0);
+
 fn main() {
+    watchdog();
     // a large stack so that deep (but legitimate) recursion in the interpreter does not abort the
     // whole batch; the real stack-overflow cases are caught by the driver (child dies).
     let child = std::thread::Builder::new()
